@@ -1,4 +1,5 @@
 pub mod coord;
+pub mod disk;
 pub mod run;
 pub mod sim;
 pub mod store;
